@@ -168,6 +168,12 @@ class Tap:
         tap, sim = self, self.sim
         o_wait, o_chk, o_gen, o_add = (core.Zeroconf.async_wait, core.Zeroconf.async_check_service,
                                        core.Zeroconf.generate_service_broadcast, ServiceRegistry.async_add)
+        o_send = core.Zeroconf.async_send
+
+        def asend(self_, out, addr=None, port=5353, v6_flow_scope=(), transport=None):
+            # delimits the datagrams of one async_send call in the event log
+            tap.ev.append(("asend", sim.now(), id(self_)))
+            return o_send(self_, out, addr, port, v6_flow_scope, transport)
 
         async def wait(self_, timeout):
             info = tap.cur.get(id(self_))
@@ -192,14 +198,16 @@ class Tap:
             return o_gen(self_, info, ttl, broadcast_addresses)
 
         def add(self_, info):
+            r = o_add(self_, info)  # raises ServiceNameAlreadyRegistered for a name the instance already holds
             tap.ev.append(("regadd", sim.now(), id(self_), info.name))
-            return o_add(self_, info)
+            return r
 
         core.Zeroconf.async_wait = wait
+        core.Zeroconf.async_send = asend
         core.Zeroconf.async_check_service = chk
         core.Zeroconf.generate_service_broadcast = gen
         ServiceRegistry.async_add = add
-        self.saved = [(core.Zeroconf, "async_wait", o_wait), (core.Zeroconf, "async_check_service", o_chk),
+        self.saved = [(core.Zeroconf, "async_send", o_send), (core.Zeroconf, "async_wait", o_wait), (core.Zeroconf, "async_check_service", o_chk),
                       (core.Zeroconf, "generate_service_broadcast", o_gen), (ServiceRegistry, "async_add", o_add)]
         sim.net.on_send = lambda t, src, data, addr: tap.ev.append(("send", t, id(src.zc), data, addr))
 
@@ -281,6 +289,7 @@ def run_scenario(sc):
         await sim.sleep_until(t0 + 9000)
         obs["t0"] = t0
         obs["zc"] = id(za)
+        obs["reg"] = id(za.registry)
         obs["results"] = results
         obs["infos"] = [id(info)] + ([id(info2)] if info2 is not None else [])
         obs["info_fields"] = info_fields(info)
@@ -341,20 +350,26 @@ def blocks_of(obs, which=0):
 
 
 def announcements_of(obs, info_id):
-    """[(t, [datagrams])] of the positive-TTL broadcasts of one info"""
+    """[(t, [datagrams])] of the positive-TTL broadcasts of one info: the datagrams of the async_send call that follows
+    each generate_service_broadcast(info, None)"""
     out = []
-    pending = None
+    state = None  # None | "armed" (broadcast generated, waiting for its async_send) | "open" (collecting its datagrams)
     for e in obs["ev"]:
         if e[2] != obs["zc"]:
             continue
         if e[0] == "bcast":
-            pending = [e[1], []] if (e[3] == info_id and e[4] is None) else None
-            if pending is not None:
-                out.append(pending)
-        elif e[0] == "send" and pending is not None:
-            pending[1].append(e[3])
-        else:
-            pending = None
+            state = "armed" if (e[3] == info_id and e[4] is None) else None
+        elif e[0] == "asend":
+            if state == "armed":
+                out.append([e[1], []])
+                state = "open"
+            else:
+                state = None
+        elif e[0] == "send":
+            if state == "open":
+                out[-1][1].append(e[3])
+        elif state == "open":
+            state = None
     return out
 
 
@@ -513,7 +528,7 @@ def oracle(sc, obs, res, case):
                     # a restart (i := 0) for the same name cannot happen: the name changes at every restart
                     viol.append(("C09:probe-gap", "consecutive probes for one name %d ms apart" % (tb - ta)))
             ann = announcements_of(obs, info_id) if info_id is not None else []
-            registered = any(e[0] == "regadd" and e[2] == obs["zc"] and e[3] == fin and e[1] == call["t_end"] for e in obs["ev"])
+            registered = any(e[0] == "regadd" and e[2] == obs["reg"] and e[3] == fin and e[1] == call["t_end"] for e in obs["ev"])
             if registered:
                 Tl = probes[-1][0] if probes else call["t_end"]
                 times = [a[0] for a in ann]
@@ -523,14 +538,14 @@ def oracle(sc, obs, res, case):
                     if len(dgs) != 1:
                         viol.append(("C09:announce-datagrams", "an announcement was %d datagrams" % len(dgs)))
                         continue
-                    v = check_announcement(sc, obs, fin, dgs[0])
+                    v = check_announcement(dict(sc, port=sc["port"] if ci == 0 else (sc["port"] + 1) % 65536), obs, fin, dgs[0])
                     if v:
                         viol.append(v)
         else:
             # failed registration: nothing is ever announced for this info
             if info_id is not None and announcements_of(obs, info_id):
                 viol.append(("C09:announced-after-failure", "a failed registration was announced"))
-            if any(e[0] == "regadd" and e[2] == obs["zc"] and e[1] >= call["blocks"][0]["now"] and e[1] <= call["t_end"] for e in obs["ev"]) and ci == 0:
+            if any(e[0] == "regadd" and e[2] == obs["reg"] and e[1] >= call["blocks"][0]["now"] and e[1] <= call["t_end"] for e in obs["ev"]) and ci == 0:
                 viol.append(("C09:registered-after-failure", "a failed registration reached the registry"))
     # ---- the conflicting name is never announced or answered for: any response datagram of the host, from the start of the
     # registration that met the conflict until the next registration starts (a later registration may obtain a name that has
@@ -667,7 +682,7 @@ def compare(res, pending, model):
             ok = False
         if ok and call["outcome"] == "ok" and ci < len(obs["infos"]):
             ann = announcements_of(obs, obs["infos"][ci])
-            registered = any(e[0] == "regadd" and e[2] == obs["zc"] and e[1] == call["t_end"] and e[3] == call["final_name"] for e in obs["ev"])
+            registered = any(e[0] == "regadd" and e[2] == obs["reg"] and e[1] == call["t_end"] and e[3] == call["final_name"] for e in obs["ev"])
             if registered:
                 got = ";".join("%d@%s" % (t, ";".join(pkt_canon(d) for d in dgs)) for t, dgs in ann)
                 if len(tail) < 4 or tail[3] != got:
